@@ -1,1 +1,152 @@
+(* C02 - property theorems only.  Each is closed by [exact] of a lemma from Proofs.v and
+   followed by Print Assumptions.
+
+   Reading guide.  [evs] is ANY list of events: client operations (connect, request, notify,
+   advance the clock past every forward time-out, close) interleaved with ANY deliveries
+   [EDeliver k] (the message of forwarded request k moves one hop: front -> back-end, or
+   back-end -> front).  [rf] / [itype] are ANY route functions and instance table.
+   [tags_of] are ghost tags naming the individual requests (two requests may carry the same
+   client id); [out] lists (connection, tag, response written).  [finish] completes a history:
+   everything in flight arrives, then the clock passes every deadline.
+   [verdict_of rf itype key r] is what route [r] means for a session whose routing key is
+   [key]: VLocal (the front's own type), VNoTarget, or VForward i rt m (instance i chosen by the
+   route function; rt: i has the routed type).  [expected] is the response that verdict calls
+   for; [allowed] = expected, or a time-out error in place of a forwarded reply. *)
 From Cell2V Require Import Common.Tac Common.ListX Common.AList C02.Model C02.Spec C02.Proofs.
+
+(* Exactly one response per request with a non-zero id sent on an open connection that is not
+   closed afterwards, on that connection, carrying that id - for every interleaving.
+   (The one excluded class: the front's OWN handler keeps the completion and never uses it;
+   that is user code, [expected = None].) *)
+Theorem C02_one_response : forall rf itype evs pre post c mid r tag,
+  NoDup (tags_of (ops_of evs)) ->
+  ops_of evs = pre ++ OReq c mid r tag :: post ->
+  mid <> 0 -> is_open (cview pre) c = true -> ~ In (OClose c) post ->
+  expected (verdict_of rf itype (key_of (cview pre) c) r) tag <> None ->
+  exists e p,
+    filter (fun x => Z.eqb (snd (fst x)) tag) (out (finish itype (run rf itype evs)))
+      = [(c, tag, Resp mid e p)] /\
+    allowed (verdict_of rf itype (key_of (cview pre) c) r) tag e p.
+Proof. exact one_response. Qed.
+Print Assumptions C02_one_response.
+
+(* In EVERY reachable state no request has two responses ... *)
+Theorem C02_at_most_one : forall rf itype evs,
+  NoDup (tags_of (ops_of evs)) -> NoDup (outT (run rf itype evs)).
+Proof. exact at_most_one. Qed.
+Print Assumptions C02_at_most_one.
+
+(* ... and every response written belongs to a request that was sent on that connection with
+   that id, and is the one its route calls for: produced by the front itself iff the route
+   names the front's type; otherwise the reply of the instance the route function selected
+   from the session's data at that moment (or an error). *)
+Theorem C02_source : forall rf itype evs pre post c mid r tag c1 m e p,
+  NoDup (tags_of (ops_of evs)) ->
+  ops_of evs = pre ++ OReq c mid r tag :: post ->
+  In (c1, tag, Resp m e p) (out (run rf itype evs)) ->
+  is_open (cview pre) c = true /\ c1 = c /\ m = mid /\ mid <> 0 /\
+  allowed (verdict_of rf itype (key_of (cview pre) c) r) tag e p.
+Proof. exact response_source. Qed.
+Print Assumptions C02_source.
+
+(* When the clock only crosses the deadlines at quiescence (no reply in flight for a waiting
+   request at any Advance: [calm]), the response is exactly the expected one: in particular a
+   forwarded request whose handler replies is answered with that reply, unchanged, naming
+   the instance the route function chose. *)
+Theorem C02_relayed_unchanged : forall rf itype evs pre post c mid r tag c1 m e p,
+  NoDup (tags_of (ops_of evs)) -> calm rf itype evs = true ->
+  ops_of evs = pre ++ OReq c mid r tag :: post ->
+  In (c1, tag, Resp m e p) (out (finish itype (run rf itype evs))) ->
+  expected (verdict_of rf itype (key_of (cview pre) c) r) tag = Some (e, p).
+Proof. exact relayed_unchanged. Qed.
+Print Assumptions C02_relayed_unchanged.
+
+(* Unknown method / group, undecodable payload, failing or panicking handler, request to a
+   notify-shaped method, no reachable target (unbound key, unknown instance, unknown type,
+   malformed route), wrong service, handler that never completes on a back-end: exactly one
+   response, with the error flag and no payload. *)
+Theorem C02_errors_answered : forall rf itype evs pre post c mid r tag,
+  NoDup (tags_of (ops_of evs)) ->
+  ops_of evs = pre ++ OReq c mid r tag :: post ->
+  mid <> 0 -> is_open (cview pre) c = true -> ~ In (OClose c) post ->
+  unservable (verdict_of rf itype (key_of (cview pre) c) r) ->
+  filter (fun x => Z.eqb (snd (fst x)) tag) (out (finish itype (run rf itype evs)))
+    = [(c, tag, Resp mid true PNone)].
+Proof. exact errors_answered. Qed.
+Print Assumptions C02_errors_answered.
+
+(* Notifications are never answered (no response carries id 0 at all) ... *)
+Theorem C02_notify_unanswered : forall rf itype evs pre post c r tag,
+  NoDup (tags_of (ops_of evs)) ->
+  ops_of evs = pre ++ ONotify c r tag :: post ->
+  ~ In tag (outT (run rf itype evs)).
+Proof. exact notify_unanswered. Qed.
+Print Assumptions C02_notify_unanswered.
+
+Theorem C02_never_id_zero : forall rf itype evs c t m e p,
+  NoDup (tags_of (ops_of evs)) -> In (c, t, Resp m e p) (out (run rf itype evs)) -> m <> 0.
+Proof. exact never_id_zero. Qed.
+Print Assumptions C02_never_id_zero.
+
+(* ... and are delivered to the handler exactly once (requests too): at the end of a history
+   the invocation log holds one entry for the request/notification, at the instance its
+   verdict names, or none when no handler is to be entered. *)
+Theorem C02_handler_once : forall rf itype evs pre post o c mid r tag,
+  NoDup (tags_of (ops_of evs)) ->
+  ops_of evs = pre ++ o :: post ->
+  (o = OReq c mid r tag \/ (o = ONotify c r tag /\ mid = 0)) ->
+  is_open (cview pre) c = true ->
+  filter (fun x => Z.eqb (snd x) tag) (hlog (finish itype (run rf itype evs))) =
+  match handler_inst (verdict_of rf itype (key_of (cview pre) c) r) (negb (Z.eqb mid 0)) with
+  | Some i => [(i, tag)]
+  | None => []
+  end.
+Proof. exact handler_once. Qed.
+Print Assumptions C02_handler_once.
+
+(* Frame: nothing is ever written to a connection after it was closed, whatever happens. *)
+Theorem C02_closed_silent : forall rf itype more s c,
+  is_closed (conns s) c = true ->
+  responses_of (run_from rf itype s more) c = responses_of s c.
+Proof. exact closed_silent. Qed.
+Print Assumptions C02_closed_silent.
+
+(* The schedule of the harness (every message delivered before the next client operation) is
+   one of the event lists the theorems quantify over, and it is calm. *)
+Theorem C02_harness_schedule : forall rf itype ops,
+  exists evs, ops_of evs = ops /\ calm rf itype evs = true /\
+              fold_left (sync_step rf itype) ops init = run rf itype evs /\
+              quiet (run rf itype evs) = true.
+Proof. exact sync_is_schedule. Qed.
+Print Assumptions C02_harness_schedule.
+
+(* non-vacuity: a history over the harness configuration with a keyed forward, a notify, a
+   request to a notify-shaped method, an unknown type, a silent back-end handler and a silent
+   front handler (the only unanswered one) *)
+Example C02_example_sync :
+  observe (run_sync rf0 itype0
+    [OConnect 1 false; OReq 1 900 (RT 0 (MSetKey 2)) 1; OReq 1 10 (RT 1 MEcho) 2;
+     ONotify 1 (RT 1 MEcho) 3; OReq 1 11 (RT 1 MNote) 4; OReq 1 12 (RT 7 MEcho) 5;
+     OReq 1 13 (RT 2 MNever) 6; OReq 1 14 (RT 0 MNever) 7])
+  = ([(1, [Resp 900 false (PReply 0 1); Resp 10 false (PReply 2 2); Resp 11 true PNone;
+           Resp 12 true PNone; Resp 13 true PNone])],
+     [(0, 1); (2, 2); (2, 3); (3, 6); (0, 7)]).
+Proof. vm_compute. reflexivity. Qed.
+
+(* an asynchronous schedule: the reply is still in flight when the clock passes the deadline -
+   one response (the time-out error), the late reply is dropped; not calm *)
+Example C02_example_timeout :
+  out (finish itype0 (run rf0 itype0
+    [EOp (OConnect 1 false); EOp (OReq 1 5 (RT 2 MEcho) 1); EOp OAdvance; EDeliver 0; EDeliver 0]))
+  = [(1, 1, Resp 5 true PNone)]
+  /\ calm rf0 itype0
+    [EOp (OConnect 1 false); EOp (OReq 1 5 (RT 2 MEcho) 1); EOp OAdvance; EDeliver 0; EDeliver 0] = false.
+Proof. vm_compute. split; reflexivity. Qed.
+
+(* a later front-local request overtakes a forwarded one that is still in flight *)
+Example C02_example_overtake :
+  out (finish itype0 (run rf0 itype0
+    [EOp (OConnect 1 false); EOp (OReq 1 5 (RT 2 MEcho) 1); EDeliver 0;
+     EOp (OReq 1 6 (RT 0 MFail) 2); EDeliver 0; EOp OAdvance]))
+  = [(1, 2, Resp 6 true PNone); (1, 1, Resp 5 false (PReply 3 1))].
+Proof. vm_compute. reflexivity. Qed.
